@@ -102,6 +102,10 @@ type caseRuns struct {
 	Case      caseDesc  `json:"case"`
 	Runs      []runDesc `json:"runs"`
 	Canonical bool      `json:"canonical,omitempty"`
+	// Contended: the case exists because its kernel makes several requests wait
+	// at one DRAM controller of the mi300a platform in the same cycle for the
+	// same bank; executions without that are counted as having missed the point
+	Contended bool `json:"needs_dram_bank_contention,omitempty"`
 }
 
 var gomaxprocsPool = []int{1, 2, 4, 16}
@@ -312,6 +316,22 @@ func canonicalCases(reps, nB2 int) []caseRuns {
 	}
 	runs2 = append(runs2, runDesc{Family: "A", Delays: true, DelaySeed: 0xC05A6, GOMAXPROCS: 2, GOGC: "100", Reps: reps})
 	out := []caseRuns{{Case: c, Runs: runs, Canonical: true}, {Case: c2, Runs: runs2, Canonical: true}}
+	// mi300a with contended DRAM traffic: matrix transpose 256x256 with the gcn3
+	// kernel and 128x128 with the cdna3 kernel put two or more requests for the
+	// same bank into one controller's pending list in the same cycle (the
+	// vectoradd cases above do so far less and never with an effect on order)
+	for i, cc := range []caseDesc{
+		{Name: "canon-matrixtranspose-256-gcn3-kernel-mi300a", Workload: "matrixtranspose", Params: map[string]int{"width": 256}, Timing: true, GPUType: "mi300a", GPUs: []int{1}, RandSeed: 1},
+		{Name: "canon-matrixtranspose-128-mi300a", Workload: "matrixtranspose", Params: map[string]int{"width": 128}, Timing: true, GPUType: "mi300a", Arch: "cdna3", GPUs: []int{1}, RandSeed: 1},
+	} {
+		s := uint64(0xC05D0 + 16*i)
+		out = append(out, caseRuns{Case: cc, Canonical: true, Contended: true, Runs: []runDesc{
+			{Family: "A", Delays: true, DelaySeed: s + 1, GOMAXPROCS: 2, GOGC: "100"},
+			{Family: "A", Delays: true, DelaySeed: s + 2, GOMAXPROCS: 16, GOGC: "10"},
+			{Family: "B", Delays: true, DelaySeed: s + 3, GOMAXPROCS: 4, GOGC: "off"},
+			{Family: "A", Delays: true, DelaySeed: s + 4, GOMAXPROCS: 4, GOGC: "100", Reps: reps},
+		}})
+	}
 	return append(out, copyHandoffCanon()...)
 }
 
@@ -351,7 +371,7 @@ func copyHandoffCanon() []caseRuns {
 
 func buildCases(c *vlib.Check) (cases []caseRuns, par []caseRuns) {
 	reps := c.N(2, 3)
-	cases = canonicalCases(reps, c.N(3, 5))
+	cases = canonicalCases(reps, c.N(2, 5))
 	base := c.Rand("cases")
 	rounds := c.N(1, 5)
 	k := c.N(4, 8)
@@ -453,6 +473,7 @@ type judge struct {
 	// per key: first witness only is kept by vlib; we add occurrence counts
 	handoffObserved map[string]int // by what differed
 	noraceReported  bool
+	maxSameBank     map[string]int64 // per platform: most same-bank contention cycles seen in one execution
 }
 
 func runSummary(rr runRecord) map[string]any {
@@ -595,6 +616,41 @@ func (j *judge) judgeCase(cr caseRuns, recs []runRecord, serialRef *runRecord) {
 		c.Distinct("gomaxprocs", strconv.Itoa(r.GOMAXPROCS))
 		c.Distinct("workload", cr.Case.Workload)
 		c.Distinct("platform", fmt.Sprintf("%s|%s|gpus=%v|unified=%v", cr.Case.GPUType, cr.Case.Arch, cr.Case.GPUs, cr.Case.Unified))
+	}
+
+	// ---- how contended were the memory controllers (every execution, incl. repetitions) ----
+	if cr.Runs[0].Family != "P" {
+		plat := "r9nano"
+		if cr.Case.GPUType != "" {
+			plat = cr.Case.GPUType
+		}
+		for _, rr := range ok {
+			execs := []map[string]int64{rr.Res.Contention}
+			for _, rp := range rr.Reps {
+				execs = append(execs, rp.Res.Contention)
+			}
+			for _, ct := range execs {
+				for k, v := range ct {
+					if strings.Contains(k, "_cycles_with_2_or_more_pending") {
+						c.Count(plat+"_"+k, v)
+					}
+				}
+				c.Count(plat+"_executions_metered", 1)
+				sb := ct["dram_cycles_with_2_or_more_pending_same_bank"]
+				j.mu.Lock()
+				if sb > j.maxSameBank[plat] {
+					j.maxSameBank[plat] = sb
+				}
+				j.mu.Unlock()
+				if cr.Contended {
+					if sb >= 20 {
+						c.Count("mi300a_contended_case_executions_with_same_bank_contention", 1)
+					} else {
+						c.Count("mi300a_contended_case_executions_without_same_bank_contention", 1)
+					}
+				}
+			}
+		}
 	}
 
 	// ---- copy hand-off programs and host races on application buffers ----
@@ -1010,7 +1066,7 @@ func parentMain() {
 		cases, par = []caseRuns{*replay}, nil
 	}
 	if os.Getenv("C05_ONLY_CANONICAL") != "" {
-		cases, par = canonicalCases(c.N(2, 3), c.N(3, 5)), nil
+		cases, par = canonicalCases(c.N(2, 3), c.N(2, 5)), nil
 	}
 	needRace := false
 	for _, cr := range cases {
@@ -1051,7 +1107,7 @@ func parentMain() {
 		recs[jr.ci][jr.ri] = execRun(bins, scratch, childJob{Case: all[jr.ci].Case, Run: all[jr.ci].Runs[jr.ri]})
 	})
 
-	j := &judge{c: c, handoffObserved: map[string]int{}}
+	j := &judge{c: c, handoffObserved: map[string]int{}, maxSameBank: map[string]int64{}}
 	serialRef := map[string]*runRecord{}
 	for ci, cr := range cases {
 		j.judgeCase(cr, recs[ci], nil)
@@ -1088,6 +1144,7 @@ func parentMain() {
 		}
 	}
 	c.Set("runs", runList)
+	c.Set("max_dram_same_bank_contention_cycles_in_one_execution", j.maxSameBank)
 	c.Set("handoff_finding_observables_differing", j.handoffObserved)
 	c.Set("metric_classes", "time-derived: unit 'second' or 'cycles/inst'; memory-event counts: cache/TLB hit, miss, mshr-hit splits, DRAM and RDMA transaction counts and sizes; functional: everything else (instruction counts, unknown units) and the set of rows")
 
@@ -1100,7 +1157,11 @@ func parentMain() {
 		"runs_race_build": int64(c.N(3, 30)), "runs_taskset_pinned": int64(c.N(3, 30)), "parallel_engine_buffer_comparisons": int64(c.N(2, 10)),
 		"in_process_repetition_pairs_compared": int64(c.N(7, 60)),
 		// the copy hand-off family reached its target: blocking D2H copies whose command completed on a flush reply
-		"observed_d2h_completed_on_flush_reply": int64(c.N(8, 60)), "observed_d2h_on_flush_reply_with_stall": int64(c.N(4, 30)),
+		// contention at the DRAM controllers was observed, not hoped for
+		"mi300a_dram_cycles_with_2_or_more_pending": int64(c.N(8000, 20000)), "mi300a_dram_cycles_with_2_or_more_pending_same_bank": int64(c.N(150, 400)),
+		"mi300a_contended_case_executions_with_same_bank_contention": int64(c.N(8, 10)),
+		"r9nano_l2_cycles_with_2_or_more_pending":                    int64(c.N(5000, 50000)),
+		"observed_d2h_completed_on_flush_reply":                      int64(c.N(8, 60)), "observed_d2h_on_flush_reply_with_stall": int64(c.N(4, 30)),
 	}
 	if restricted { // a single case: only require that it was compared at all
 		minNT = 2
@@ -1115,6 +1176,7 @@ func parentMain() {
 			"distinct_nontrivial = distinct (case, host condition) pairs of completed runs with >= 10 application->engine hand-offs and >= 100 metric rows, compared against another run of the same case",
 		Assumptions: []string{
 			"in-process repetitions: one family-A child per case executes the simulation 2 (thorough: 3) times on a fresh runner.Runner each, flags parsed once, as amd/tests/deterministic does; execution k is compared with execution 1 of that process (buffers without process ids, absolute engine times of the per-simulation engine, every metric row of the per-simulation sqlite file), execution 1 with the fresh-process runs",
+			"contention bookkeeping: a hook on the Top port of every DRAM controller / L2 cache counts the cycles in which the component retrieved >= 2 requests (DMA-engine requests excluded at the DRAM); for the mi300a banked DRAM model also those with >= 2 requests for the same bank (bank = (converted address >> 6) % 16, the values timingconfig/mi300a configures). This is a necessary condition for the controller's order among pending requests to matter, not a sufficient one; requests left pending from earlier cycles are not visible at the port",
 			"copy hand-off family: the last reply of a copy command is observed through a tracer on the Driver (request tasks of the command's task); a blocking D2H must have delivered its data when it returns: the application's immediate snapshot of the destination equals the snapshot after a quiescent point and the one of the plain run; race reports are judged only when application code and driver code touch the same host buffer",
 			"one application goroutine per simulation (runner.Run with one benchmark); serial engine except in the parallel-engine comparison, where only buffers are compared",
 			"identical inputs: //go:debug randseednop=0 + rand.Seed(case seed) in every child; fresh process per run",
